@@ -180,8 +180,21 @@ where
 		}
 		HookStdin::None => {}
 	}
+	#[cfg(feature = "breard_r_acmed_verif")]
+	crate::verif::emit(
+		"HookStart",
+		serde_json::json!({"hook": hook.name, "cmd": hook.cmd, "args": args}),
+	);
 	// TODO: add a timeout
 	let status = cmd.status().await?;
+	#[cfg(feature = "breard_r_acmed_verif")]
+	crate::verif::emit(
+		"HookEnd",
+		serde_json::json!({
+			"hook": hook.name, "code": status.code(), "allow_failure": hook.allow_failure,
+			"world": if crate::verif::snapshot_enabled() { crate::verif::snapshot() } else { serde_json::Value::Null },
+		}),
+	);
 	if !status.success() && !hook.allow_failure {
 		let msg = match status.code() {
 			Some(code) => format!("unrecoverable failure: code {code}").into(),
@@ -206,6 +219,14 @@ where
 	L: HasLogger,
 	T: Clone + HookEnvData + Serialize,
 {
+	#[cfg(feature = "breard_r_acmed_verif")]
+	crate::verif::emit(
+		"HookCall",
+		serde_json::json!({
+			"type": format!("{hook_type:?}"),
+			"all": hooks.iter().map(|h| h.name.clone()).collect::<Vec<String>>(),
+		}),
+	);
 	for hook in hooks.iter().filter(|h| h.hook_type.contains(&hook_type)) {
 		call_single(logger, data, hook)
 			.await
